@@ -292,24 +292,6 @@ def probe_quirks(ck):
     return out
 
 
-def _drop_axioms_header(ck):
-    """common.py's parser of Print Assumptions reads the header line 'Axioms:' as an axiom called
-    'Axioms' (no earlier property file had any axiom).  The three logarithmic theorems depend only on
-    the allow-listed real-number axioms of the standard library: re-judge them without the header."""
-    from .common import ALLOWED_AXIOMS
-    for name, ax in list(ck.axioms.items()):
-        if "Axioms" not in ax:
-            continue
-        real = [a for a in ax if a != "Axioms"]
-        ck.axioms[name] = real
-        msg = [b for b in ck.broken if b.startswith(f"theorem {name} depends on non-allowed axioms")]
-        if msg and all(a in ALLOWED_AXIOMS or a.split(".")[-1] in ALLOWED_AXIOMS for a in real):
-            for m in msg:
-                ck.broken.remove(m)
-            ck.discharged += 1
-    ck.extra["real_number_axioms_used_by"] = sorted(n for n, ax in ck.axioms.items() if ax)
-
-
 def header(lines, qk):
     extra = coq_list([t1_defs.coq_rawdef(t1_defs.unit_line(ln)) for ln in lines])
     return ("From PintV Require Import Model.UC Model.Eval Model.Registry Model.UCRun Model.Offset Model.OffsetRun "
@@ -351,7 +333,7 @@ def run(ck):
     # the run model first (so that K can look for a failing input even when a proof or tie breaks)
     built_run = ck.coq_build(["Model/OffsetRun.vo", "Gen/DefaultReg.vo", "Gen/Converters.vo"])
     ck.coq_build(["Properties/C06.vo"])
-    _drop_axioms_header(ck)
+    ck.extra["real_number_axioms_used_by"] = sorted(n for n, ax in ck.axioms.items() if ax)
     # when the model could not be built (translator or model broken) the oracles still run on pint alone,
     # so that a concrete failing input is reported whenever there is one
 
